@@ -168,8 +168,8 @@ DOMAIN_NOT_ARMED = {
 }
 # frozen, one expression each: divisors whose non-zeroness is a data fact decided elsewhere or an algebraic consequence
 DOMAIN_REASONED = {
-    ('CSb_Photo_Partial', '(x1 - x0)'): 'first two knots of a Kissel sub-shell table; knots are strictly increasing (data fact decided by C02, generated-knot validation)',
-    ('lininterp', '(xa[(findpos + 1)] - xa[findpos])'): 'adjacent knots of a table; strictly increasing (data fact decided by C02)',
+    ('CSb_Photo_Partial', '(x1 - x0)'): 'first two knots of a Kissel sub-shell table; that they differ is a data fact decided by C02 (thorough tier, rule kissel-first-knots; vacuous while data/kissel_pe.dat is empty)',
+    ('lininterp', '(xa[(findpos + 1)] - xa[findpos])'): 'adjacent knots of a caller-supplied table; lininterp has no caller inside the library (helper kept for API compatibility), distinct knots are its caller\'s contract',
     ('LineEnergyComposed', '(rate_tmp1 + rate_tmp2)'): 'guarded by e1*r1 + e2*r2 > 0 with non-negative energies and rates (accessor value paths are > 0, sentinel 0), which implies r1 + r2 > 0',
 }
 
